@@ -5,6 +5,7 @@ package gosym
 import (
 	"fmt"
 	"go/types"
+	"math/big"
 	"strings"
 )
 
@@ -45,8 +46,9 @@ func init() {
 			PrefixOf(MkStr("jkl1"), a)}
 	})
 	ufAlphabet["b32enc"] = "jkl1qpzry9x8gf2tvdw0s3jn54khce6mua7l"
+	DeclareUF("ismod", []Sort{SStr}, SBool, nil)
 	DeclareUF("modaddr", []Sort{SStr}, SStr, func(a *Term) []*Term {
-		return []*Term{Eq(App("modname", a), a.Args[0])}
+		return []*Term{Eq(App("modname", a), a.Args[0]), App("ismod", a)}
 	})
 	ufFixedLen["modaddr"] = 20
 	DeclareUF("modname", []Sort{SStr}, SStr, nil)
@@ -253,7 +255,8 @@ func init() {
 			}
 			et := iv.T.Underlying().(*types.Pointer).Elem()
 			fz := cc.E.freeze(cc.S, cc.S.load(p), et)
-			b := &BytesV{T: FreshVar("pb", SStr), NilT: TFalse, Blob: &Blob{Typ: et, Val: fz}}
+			// gogoproto returns nil for a message whose fields are all default
+			b := &BytesV{T: FreshVar("pb", SStr), NilT: allDefault(fz), Blob: &Blob{Typ: et, Val: fz}}
 			if must {
 				return ret1(b)
 			}
@@ -304,6 +307,7 @@ func init() {
 			lazy := b.Blob.Lazy
 			for _, sh := range shapes {
 				sh := sh
+				sh.cond = And(sh.cond, wfCond(cc.S, lazy, et, sh.val))
 				outs = append(outs, Outcome{Cond: sh.cond, Do: func(st *State) {
 					st.W.LazyVals[lazy] = lazyVal{typ: et, val: sh.val}
 					st.store(p, cc.E.thaw(st, sh.val))
@@ -702,4 +706,128 @@ func permutations(n int) [][]int {
 	}
 	rec(nil, make([]bool, n))
 	return res
+}
+
+
+// wfCond: declared well-formedness of an open-world record (zzverif.WFKey / WFAddr): the record sits at
+// the key built from its own fields; address fields hold valid account strings.
+func wfCond(s *State, lazy int, et types.Type, val Value) *Term {
+	st, ok := et.Underlying().(*types.Struct)
+	sv, ok2 := val.(*StructV)
+	if !ok || !ok2 {
+		return TTrue
+	}
+	tn := shortType(et)
+	field := func(name string) Value {
+		for i := 0; i < st.NumFields(); i++ {
+			if st.Field(i).Name() == name {
+				return sv.F[i]
+			}
+		}
+		throwf("WF: no field %s in %s", name, tn)
+		return nil
+	}
+	cond := TTrue
+	for store, m := range s.W.Stores {
+		spec, ok := s.W.Ghost["wfkey:"+store+":"+tn]
+		if !ok {
+			continue
+		}
+		for r := m.Reads; r != nil; r = r.next {
+			if r.val == nil || r.val.Blob == nil || r.val.Blob.Lazy != lazy {
+				continue
+			}
+			var ps []*Term
+			for _, p := range spec.([]string) {
+				switch {
+				case strings.HasPrefix(p, "$"):
+					ps = append(ps, strOf(field(p[1:])))
+				case strings.HasPrefix(p, "hex:$"):
+					ps = append(ps, hexT(strOf(field(p[5:]))))
+				case strings.HasPrefix(p, "dec:$"):
+					ps = append(ps, decT(field(p[5:]).(*Term)))
+				default:
+					ps = append(ps, MkStr(p))
+				}
+			}
+			cond = And(cond, Eq(r.key, Concat(ps...)))
+		}
+	}
+	if spec, ok := s.W.Ghost["wfaddr:"+tn]; ok {
+		for _, f := range spec.([]string) {
+			ft := strOf(field(f))
+			noteAddr(s.W, ft, b32decT(ft))
+			// a valid account string of an ordinary (non-module) account
+			cond = And(cond, b32okT(ft), Not(App("ismod", b32decT(ft))))
+		}
+	}
+	if spec, ok := s.W.Ghost["wf:"+tn]; ok {
+		for _, cl := range spec.([]string) {
+			ps := strings.SplitN(cl, ":", 3)
+			switch ps[0] {
+			case "nocontain":
+				cond = And(cond, Not(Contains(strOf(field(ps[1])), MkStr(ps[2]))))
+			case "oneof":
+				var alts []*Term
+				for _, a := range strings.Split(ps[2], ",") {
+					alts = append(alts, Eq(strOf(field(ps[1])), MkStr(a)))
+				}
+				cond = And(cond, Or(alts...))
+			case "lower":
+				cond = And(cond, isLowerT(strOf(field(ps[1]))))
+			case "nonneg":
+				cond = And(cond, Le(MkI(0), field(ps[1]).(*Term)))
+			case "le":
+				n, _ := new(big.Int).SetString(ps[2], 10)
+				cond = And(cond, Le(field(ps[1]).(*Term), MkInt(n)))
+			case "pos":
+				cond = And(cond, Lt(MkI(0), field(ps[1]).(*Term)))
+			case "coin":
+				ft := strOf(field(ps[1]))
+				cond = And(cond, App("coinok", ft))
+			default:
+				throwf("WF clause %q", cl)
+			}
+		}
+	}
+	// the real stores never hold an empty value: a present record has some non-default field
+	cond = And(cond, Not(allDefault(val)))
+	return cond
+}
+
+
+// allDefault: every scalar in the (frozen or live) record equals its zero value, i.e. the protobuf
+// encoding is empty.
+func allDefault(v Value) *Term {
+	switch x := v.(type) {
+	case *Term:
+		switch x.Sort {
+		case SInt:
+			return Eq(x, MkI(0))
+		case SBool:
+			return Not(x)
+		}
+		return Eq(Len(x), MkI(0))
+	case *StructV:
+		r := TTrue
+		for _, f := range x.F {
+			r = And(r, allDefault(f))
+		}
+		return r
+	case *BytesV:
+		return Eq(Len(x.T), MkI(0))
+	case *FrozenSlice:
+		return MkBool(len(x.E) == 0)
+	case *FrozenPtr:
+		return MkBool(x.Nil)
+	case *FrozenMap:
+		return MkBool(len(x.E) == 0)
+	case *BigV:
+		return TFalse // sdk.Int fields are always encoded
+	case *TimeV:
+		return TFalse
+	case *IfaceV:
+		return MkBool(x.T == nil)
+	}
+	return TFalse
 }
